@@ -7,7 +7,7 @@ from . import _difffam as FAM
 
 ID = 'C10'
 LEAN_TARGETS = ['Properties.C10']
-THEOREMS = ['Diff.C10_text_of_tree', 'Diff.C10_text_verbose2_total', 'Diff.C10_levels', 'Diff.C10_pretty_count']
+THEOREMS = ['Diff.C10_entry_visible', 'Diff.C10_text_of_tree', 'Diff.C10_text_verbose2_total', 'Diff.C10_payload', 'Diff.C10_levels', 'Diff.C10_pretty_count']
 RULE = ('pairs of nested values x ignore_order in {False,True} x report_repetition x verbose_level in {0,1,2}: the real tree is walked (object identity of every '
         "node's t1/t2 with the input sub-objects, up/down symmetry, root holds the originals), tree and text views are compared entry by entry through the documented "
         'visibility table, to_dict(view_override) both ways, json.loads(to_json()) categories and paths, pretty() statements counted with a sentinel prefix; the '
